@@ -238,7 +238,14 @@ Inductive zop :=
 | OUntil (cap extra : Z) (t : ztree)        (* t.until_exhausted(): up to cap items, then extra more calls *)
 | OTake (n cap extra : Z) (t : ztree)       (* t.take(n) *)
 | OInter (cap extra : Z) (t : ztree)        (* t.into_interleaved_samples().into_iter() *)
-| OLift (id : Z) (l : list (list Z)) (cap extra : Z) (t : ztree). (* signal::lift(l, |arg| t) *)
+| OLift (id : Z) (l : list (list Z)) (cap extra : Z) (t : ztree) (* signal::lift(l, |arg| t) *)
+(* j x next, then clone the whole stack; k x next on the original, then k x next on the clone *)
+| OSigClone (j k : Z) (t : ztree)
+(* an iterator the API returns -- kind 0: until_exhausted(), 1: take(n), 2: into_interleaved_samples().into_iter(),
+   3: into_interleaved_samples() driven through next_sample() -- after `pre` calls of next is
+   mode 0: drained; 1: cloned, the original drained, then the clone drained; 2: asked nth(k), then drained;
+   3: turned into skip(k), then drained *)
+| OIter (kind n pre mode k cap extra : Z) (t : ztree).
 
 Definition b2z (b : bool) : Z := if b then 1 else 0.
 Definition zn (k : nat) : Z := Z.of_nat k.
@@ -324,6 +331,71 @@ Fixpoint run_inter (cap extra : nat) (st : inter zframe Z Z Z) : list (list Z) *
     end
   end.
 
+(* ---- the iterators as values: clone = the same state, nth = repeated next ---- *)
+Inductive zit := ItUntil (s : zsig) | ItTake (n : nat) (s : zsig) | ItInter (st : inter zframe Z Z Z).
+
+Definition it_sig (it : zit) : zsig :=
+  match it with ItUntil s => s | ItTake _ s => s | ItInter st => isig st end.
+
+(* one Iterator::next: tagged item (None = end), events, new state *)
+Definition it_step (it : zit) : option (list Z) * list (event zframe) * zit :=
+  match it with
+  | ItUntil s =>
+    let ev := zuntil_trace s in
+    match zuntil_next s with
+    | (Some x, s') => (Some (13 :: enc_frame x), ev, ItUntil s')
+    | (None, s') => (None, ev, ItUntil s')
+    end
+  | ItTake n s =>
+    match n with
+    | O => (None, [], it)
+    | S n' => let ev := ztrace s in let (x, s') := znext s in (Some (13 :: enc_frame x), ev, ItTake n' s')
+    end
+  | ItInter st =>
+    let ev := inter_trace st in
+    match znext_sample 2 st with
+    | Ok (Some x, st') => (Some [15; s_canon fm x], ev, ItInter st')
+    | Ok (None, st') => (None, ev, ItInter st')
+    | _ => (Some [-2], [], it)
+    end
+  end.
+
+Definition it_obs (r : option (list Z)) (ev : list (event zframe)) : list Z :=
+  match r with Some p => p ++ enc_events ev | None => 14 :: enc_events ev end.
+
+Fixpoint it_pre (pre : nat) (it : zit) : list (list Z) * zit :=
+  match pre with
+  | O => ([], it)
+  | S p => let '(r, ev, it') := it_step it in let (l, it'') := it_pre p it' in (it_obs r ev :: l, it'')
+  end.
+
+Fixpoint it_drain (cap extra : nat) (it : zit) : list (list Z) * zit :=
+  match cap with
+  | O => ([], it)
+  | S cap' =>
+    let '(r, ev, it') := it_step it in
+    match r with
+    | Some _ => let (l, it'') := it_drain cap' extra it' in (it_obs r ev :: l, it'')
+    | None =>
+      match extra with
+      | O => ([it_obs r ev], it')
+      | S extra' => let (l, it'') := it_drain cap' extra' it' in (it_obs r ev :: l, it'')
+      end
+    end
+  end.
+
+(* Iterator::nth(k) (default body): k calls of next given up at the first None, then one more *)
+Fixpoint it_nth (k : nat) (acc : list (event zframe)) (it : zit) : list Z * zit :=
+  let '(r, ev, it') := it_step it in
+  match k with
+  | O => (it_obs r (acc ++ ev), it')
+  | S k' =>
+    match r with
+    | Some _ => it_nth k' (acc ++ ev) it'
+    | None => (it_obs None (acc ++ ev), it')
+    end
+  end.
+
 Definition run_op (bases : list zsig) (o : zop) : list (list Z) * list zsig :=
   match o with
   | ONext k t =>
@@ -347,6 +419,29 @@ Definition run_op (bases : list zsig) (o : zop) : list (list Z) * list zsig :=
     let (l, s') := run_until (Z.to_nat cap) (Z.to_nat extra) s in
     ((10 :: enc_events (build_trace (from_iter id fr : zsig) ++ own_build_trace t)) :: l ++ [enc_counts s'],
      hand_back t s' bases)
+  | OSigClone j k t =>
+    let s := build bases dummy t in
+    let (l0, s1) := run_next (Z.to_nat j) s in
+    let (la, sa) := run_next (Z.to_nat k) s1 in
+    let (lb, _) := run_next (Z.to_nat k) s1 in
+    ((10 :: enc_events (own_build_trace t)) :: l0 ++ la ++ lb ++ [enc_counts sa], hand_back t sa bases)
+  | OIter kind n pre mode k cap extra t =>
+    let s := build bases dummy t in
+    let it0 := match kind with
+               | 0 => ItUntil s
+               | 1 => ItTake (Z.to_nat n) s
+               | _ => ItInter {| isig := s; icur := None |}
+               end in
+    let (l0, it1) := it_pre (Z.to_nat pre) it0 in
+    let (l1, it2) :=
+      match mode with
+      | 0 => it_drain (Z.to_nat cap) (Z.to_nat extra) it1
+      | 1 => let (a, ita) := it_drain (Z.to_nat cap) (Z.to_nat extra) it1 in
+             let (b, _) := it_drain (Z.to_nat cap) (Z.to_nat extra) it1 in (a ++ b, ita)
+      | _ => let (o1, it') := it_nth (Z.to_nat k) [] it1 in
+             let (a, ita) := it_drain (Z.to_nat cap) (Z.to_nat extra) it' in (o1 :: a, ita)
+      end in
+    ((10 :: enc_events (own_build_trace t)) :: l0 ++ l1 ++ [enc_counts (it_sig it2)], hand_back t (it_sig it2) bases)
   end.
 
 Fixpoint run_ops (bases : list zsig) (ops : list zop) : list (list Z) :=
